@@ -13,20 +13,24 @@ let () = iter_lines (fun line ->
   | _cfg :: mc :: st :: bc :: lin :: multi :: ops ->
     let mc = nat (int_of_string mc) and st = nat (int_of_string st) and bc = nat (int_of_string bc) in
     let lin = (lin = "1") and multi = (multi = "1") in
-    let t = ref empty_tree in
+    let ts = [| ref empty_tree; ref empty_tree |] in
+    let t = ref (ts.(0)) in
     let buf = Buffer.create 256 in
     let first = ref true in
     let ordered a b = if multi then not (b < a) else a < b in
-    let idx it = int (iter_index !t it) in
-    let at h = nth_iter !t (nat h) in
-    let size () = List.length (contents !t) in
+    let idx it = int (iter_index !(!t) it) in
+    let at h = nth_iter !(!t) (nat h) in
+    let size () = List.length (contents !(!t)) in
     let do_insert tag k =
-      let ((t', pos), ins) = insert mc st bc lin multi !t (z_of_int k) in
-      t := t';
+      let ((t', pos), ins) = insert mc st bc lin multi !(!t) (z_of_int k) in
+      !t := t';
       Buffer.add_string buf (Printf.sprintf "%s%d/%d" tag (idx pos) (if ins then 1 else 0)) in
-    List.iter (fun op ->
+    List.iter (fun op0 ->
       if not !first then Buffer.add_char buf ' ';
       first := false;
+      let side = if op0.[0] = 'b' then 1 else 0 in
+      let op = if side = 1 then String.sub op0 1 (String.length op0 - 1) else op0 in
+      t := ts.(side);
       let k0 = op.[0] in
       let arg = String.sub op 1 (String.length op - 1) in
       let (a1, a2, na) =
@@ -37,28 +41,28 @@ let () = iter_lines (fun line ->
       match k0 with
       | 'i' -> do_insert "I" a1
       | 'a' ->
-        let l = List.map zi (contents !t) in
+        let l = List.map zi (contents !(!t)) in
         let n = List.length l in
         let h = min a1 n in
         let k = a2 in
         let right = (h = 0 || ordered (List.nth l (h - 1)) k) && (h = n || ordered k (List.nth l h)) in
         if not right then do_insert "A" k
         else begin
-          let (t', pos) = add mc st bc !t (at h) (z_of_int k) in
-          t := t';
+          let (t', pos) = add mc st bc !(!t) (at h) (z_of_int k) in
+          !t := t';
           Buffer.add_string buf (Printf.sprintf "A%d/1" (idx pos))
         end
       | 'q' ->
         let k = z_of_int a1 in
-        let lb = idx (lower_bound lin !t k) and ub = idx (upper_bound lin !t k) and f = idx (find lin !t k) in
-        let kc = int (key_count lin multi !t k) and ct = contains lin !t k in
+        let lb = idx (lower_bound lin !(!t) k) and ub = idx (upper_bound lin !(!t) k) and f = idx (find lin !(!t) k) in
+        let kc = int (key_count lin multi !(!t) k) and ct = contains lin !(!t) k in
         Buffer.add_string buf (Printf.sprintf "Q%d,%d,%d,%d,%d" lb ub f kc (if ct then 1 else 0))
       | 't' ->
-        let f = List.map (fun z -> string_of_int (zi z)) (traverse_fwd !t) in
-        let b = List.map (fun z -> string_of_int (zi z)) (traverse_bwd !t) in
-        Buffer.add_string buf (Printf.sprintf "T%d:%s|%s" (int (cnt !t)) (String.concat "," f) (String.concat "," b))
+        let f = List.map (fun z -> string_of_int (zi z)) (traverse_fwd !(!t)) in
+        let b = List.map (fun z -> string_of_int (zi z)) (traverse_bwd !(!t)) in
+        Buffer.add_string buf (Printf.sprintf "T%d:%s|%s" (int (cnt !(!t))) (String.concat "," f) (String.concat "," b))
       | 's' ->
-        let sh = shape_of !t in
+        let sh = shape_of !(!t) in
         if sh = [] then Buffer.add_string buf "S-"
         else Buffer.add_string buf ("S" ^ String.concat "." (List.map (fun ((leaf, c), cap) ->
           Printf.sprintf "%c%d/%d" (if leaf then 'L' else 'N') (int c) (int cap)) sh))
@@ -66,42 +70,50 @@ let () = iter_lines (fun line ->
         let n = size () in
         if n = 0 then Buffer.add_string buf "R-"
         else begin
-          let (t', it) = remove !t (at (a1 mod n)) in
-          t := t';
+          let (t', it) = remove !(!t) (at (a1 mod n)) in
+          !t := t';
           Buffer.add_string buf (Printf.sprintf "R%d" (idx it))
         end
       | 'k' when not multi ->
-        let (t', n) = remove_key lin !t (z_of_int a1) in
-        t := t';
+        let (t', n) = remove_key lin !(!t) (z_of_int a1) in
+        !t := t';
         Buffer.add_string buf (Printf.sprintf "K%d" (int n))
-      | 'c' -> t := clear !t; Buffer.add_char buf 'C'
+      | 'c' -> !t := clear !(!t); Buffer.add_char buf 'C'
       | 'x' ->
         let n = size () in
         if n = 0 then Buffer.add_string buf "X-"
         else begin
           let h = a1 mod n in
-          let key = if na = 2 && a2 >= 0 then a2 else zi (List.nth (contents !t) h) in
-          let (t', _) = remove !t (at h) in
-          t := t';
+          let key = if na = 2 && a2 >= 0 then a2 else zi (List.nth (contents !(!t)) h) in
+          let (t', _) = remove !(!t) (at h) in
+          !t := t';
           do_insert "X" key
         end
       | 'e' ->
-        let l = List.map zi (contents !t) in
+        let l = List.map zi (contents !(!t)) in
         let n = List.length l in
         if n = 0 then Buffer.add_string buf "E-"
         else begin
           let h = a1 mod n and k = a2 in
           let okk = (h = 0 || ordered (List.nth l (h - 1)) k) && (h + 1 = n || ordered k (List.nth l (h + 1))) in
           if not okk then Buffer.add_string buf "E0"
-          else begin t := reset_key !t (at h) (z_of_int k); Buffer.add_string buf "E1" end
+          else begin !t := reset_key !(!t) (at h) (z_of_int k); Buffer.add_string buf "E1" end
         end
-      | 'y' | 'Y' -> t := copy_tree mc st bc !t; Buffer.add_char buf 'Y'
+      | 'y' | 'Y' -> !t := copy_tree mc st bc !(!t); Buffer.add_char buf 'Y'
       | 'm' -> Buffer.add_char buf 'M'
       | 'p' ->
         let m = max a1 1 and r = a2 in
         let before = size () in
-        t := remove_if (fun z -> (zi z) mod m = r) !t;
+        !t := remove_if (fun z -> (zi z) mod m = r) !(!t);
         Buffer.add_string buf (Printf.sprintf "P%d" (before - size ()))
+      | 'w' -> let a = !(ts.(0)) in ts.(0) := !(ts.(1)); ts.(1) := a; Buffer.add_char buf 'W'
+      | 'u' | 'v' ->
+        let other = ts.(1 - side) in
+        (match merge_to mc st bc lin multi !other !(!t) with
+         | Some (src', dst') ->
+           other := src'; !t := dst';
+           Buffer.add_string buf (Printf.sprintf "U%d,%d" (int (cnt dst')) (int (cnt src')))
+         | None -> Buffer.add_string buf "?fast")
       | _ -> Buffer.add_string buf "?unmodelled") ops;
     print_endline (Buffer.contents buf)
   | _ -> print_endline "?")
